@@ -523,8 +523,9 @@ fn gen_replay_spec(spec_file: &str, out: &mut Out) {
         let sets = table_sets(n);
         // every schedule meets every kernel; the data set / C / label encoding rotate with the
         // schedule number and the seed so that, over the seeds, every combination is visited.
-        // thorough: two data sets per (schedule, kernel)
-        let reps = if th { 2 } else { 1 };
+        // the one-epoch schedules of four rows (the quick scope) meet two data sets per kernel in
+        // the thorough tier
+        let reps = if th && n == 4 && epochs == 1 { 2 } else { 1 };
         for (ki, k) in kernels.iter().enumerate() {
             for rep in 0..reps {
                 let h = (li as u64)
@@ -713,19 +714,22 @@ fn gen_kernel(out: &mut Out) {
         run += 1;
         out.emit(gram_event(run, json!({"kernel": k, "X": x, "S": 12})));
     }
-    // (c) RBF / sigmoid on a line of collinear points 0,1,..,m: squared distances (inner
-    //     products) form arithmetic families, which feeds the functional-equation clauses
-    let lines = if th { 60 } else { 16 };
-    for it in 0..lines {
-        let m = r.gen_range(3..=5i64);
-        let x: Vec<Vec<i64>> = (0..=m).map(|t| vec![t]).collect();
-        let k = if it % 2 == 0 {
-            kdesc("rbf", 1, 1, *[8i64, 16, 32, 64].choose(&mut r).unwrap(), 0, 1)
-        } else {
-            kdesc("sigmoid", 1, 1, *[16i64, 32, 64].choose(&mut r).unwrap(), 0, 1)
+    // (c) chains: the points P_k = (1,..,1,0,..,0) (k ones, k = 0..m) satisfy |P_i - P_j|^2 = |i - j|
+    //     and <P_i, P_j> = min(i, j), so squared distances / inner products run through 0..m and
+    //     every way of writing one of them as a sum of two others occurs: this feeds the
+    //     functional-equation clauses (exp(-(s+t)) = exp(-s)exp(-t), tanh addition theorem),
+    //     anchored by the Taylor enclosures at the small arguments.
+    let chains = if th { 60 } else { 18 };
+    for it in 0..chains {
+        let m = r.gen_range(3..=5usize);
+        let x: Vec<Vec<i64>> = (0..=m).map(|k| (0..m).map(|j| if j < k { 1 } else { 0 }).collect()).collect();
+        let (k, sc) = match it % 3 {
+            0 => (kdesc("rbf", 1, 1, *[1i64, 2, 4, 8].choose(&mut r).unwrap(), 0, 1), 12),
+            1 => (kdesc("rbf", 1, *[1i64, 3].choose(&mut r).unwrap(), *[16i64, 32, 64].choose(&mut r).unwrap(), 0, 1), 12),
+            _ => (kdesc("sigmoid", 1, 1, *[4i64, 8, 16, 32].choose(&mut r).unwrap(),
+                        *[0i64, 0, 1, -1].choose(&mut r).unwrap(), *[1i64, 4].choose(&mut r).unwrap()), 9),
         };
         run += 1;
-        let sc = if it % 2 == 0 { 12 } else { 9 };
         out.emit(gram_event(run, json!({"kernel": k, "X": x, "S": sc})));
     }
 }
